@@ -229,4 +229,68 @@ theorem ascii_noAstral (s : List Nat) (h : isASCII s = true) : NoAstral s := by
   have := h; simp [isASCII] at this
   have := this r hr; omega
 
+/-- well-paired code units decode to scalar values and re-encode to themselves -/
+theorem utf16_roundtrip : ∀ us : List Nat, wellPaired us = true → (∀ u ∈ us, u < 0x10000) →
+    (∀ r ∈ utf16Decode us, Scalar r) ∧ utf16Encode (utf16Decode us) = us
+  | [], _, _ => by simp [utf16Decode, utf16Encode]
+  | [u], hw, hu => by
+    have h1 := hu u (by simp)
+    simp only [wellPaired, decide_eq_true_eq] at hw
+    have hns : ¬ (0xD800 ≤ u ∧ u < 0xE000) := by omega
+    have hs : ¬ ((0xD800 ≤ u ∧ u ≤ 0xDFFF) ∨ u > 0x10FFFF) := by omega
+    simp only [utf16Decode, hns, if_false]
+    refine ⟨by intro r hr; simp at hr; subst hr; unfold Scalar; omega, ?_⟩
+    simp [utf16Encode, hs, h1]
+  | u :: v :: rest, hw, hu => by
+    have h1 := hu u (by simp)
+    have h2 := hu v (by simp)
+    by_cases hn : u < 0xD800 ∨ u > 0xDFFF
+    · simp only [wellPaired, hn, if_true] at hw
+      have ih := utf16_roundtrip (v :: rest) hw (fun x hx => hu x (by simp [hx]))
+      have c1 : ¬ (0xD800 ≤ u ∧ u < 0xDC00 ∧ 0xDC00 ≤ v ∧ v < 0xE000) := by omega
+      have c2 : ¬ (0xD800 ≤ u ∧ u < 0xE000) := by omega
+      have hs : ¬ ((0xD800 ≤ u ∧ u ≤ 0xDFFF) ∨ u > 0x10FFFF) := by omega
+      simp only [utf16Decode, c1, c2, if_false]
+      refine ⟨?_, ?_⟩
+      · intro r hr
+        simp only [List.mem_cons] at hr
+        rcases hr with h | h
+        · subst h; unfold Scalar; omega
+        · exact ih.1 r (by simpa using h)
+      · have := ih.2
+        simp only [utf16Encode] at this ⊢
+        simp [List.flatMap_cons, hs, h1, this]
+    · simp only [wellPaired, hn, if_false] at hw
+      by_cases hp : u < 0xDC00 ∧ 0xDC00 ≤ v ∧ v ≤ 0xDFFF
+      · simp only [hp, and_self, if_true] at hw
+        have ih := utf16_roundtrip rest hw (fun x hx => hu x (by simp [hx]))
+        have c1 : (0xD800 ≤ u ∧ u < 0xDC00 ∧ 0xDC00 ≤ v ∧ v < 0xE000) := by omega
+        simp only [utf16Decode, c1, and_self, if_true]
+        refine ⟨?_, ?_⟩
+        · intro r hr
+          simp only [List.mem_cons] at hr
+          rcases hr with h | h
+          · subst h; unfold Scalar; omega
+          · exact ih.1 r h
+        · have := ih.2
+          simp only [utf16Encode] at this ⊢
+          have hs : ¬ ((0xD800 ≤ (u - 0xD800) * 1024 + (v - 0xDC00) + 0x10000 ∧ (u - 0xD800) * 1024 + (v - 0xDC00) + 0x10000 ≤ 0xDFFF) ∨ (u - 0xD800) * 1024 + (v - 0xDC00) + 0x10000 > 0x10FFFF) := by omega
+          have hb : ¬ ((u - 0xD800) * 1024 + (v - 0xDC00) + 0x10000 < 0x10000) := by omega
+          simp only [List.flatMap_cons, hs, hb, if_false, this]
+          have e1 : 0xD800 + ((u - 0xD800) * 1024 + (v - 0xDC00) + 0x10000 - 0x10000) / 1024 = u := by omega
+          have e2 : 0xDC00 + ((u - 0xD800) * 1024 + (v - 0xDC00) + 0x10000 - 0x10000) % 1024 = v := by omega
+          simp
+          omega
+      · simp [hp] at hw
+
+/-- utf16Value leaves the code units of its argument unchanged -/
+theorem utf16Value_id (us : List Nat) (hu : ∀ u ∈ us, u < 0x10000) : utf16Value us = us := by
+  unfold utf16Value
+  split
+  · rename_i hw
+    obtain ⟨hs, he⟩ := utf16_roundtrip us hw hu
+    unfold U unitsOfBytes bytesOfUnits
+    rw [decodeRunes_encodeRunes _ hs, he]
+  · rfl
+
 end OttoVerif.C09.Lem
